@@ -78,15 +78,15 @@ theorem dedup_two (xs : List String) (a b : String) (r : List String) (h : dedup
 
 /-- the node-side interface a service interface stands for (none: a ServicePort without exactly one peer) -/
 def nifOf (s : Svc) : SIface → Option NIface
-  | .direct k => some ⟨k, s.owner⟩
-  | .port (some [p]) => some p
-  | .port _ => none
+  | .direct _ k => some ⟨k, s.owner⟩
+  | .port _ (some [p]) => some p
+  | .port _ _ => none
 
 theorem resolveOne_eq (s : Svc) (i : SIface) :
     resolveOne s i = match nifOf s i with | some n => .ok n | none => .error .topology := by
   cases i with
-  | direct k => rfl
-  | port ps =>
+  | direct _ k => rfl
+  | port _ ps =>
     match ps with
     | none => rfl
     | some [] => rfl
@@ -968,5 +968,105 @@ theorem validate_error (c : Cfg) (t : Topo) (e : Err)
       rw [hsv] at h
       simp only [instances_unlimited c svcs' h0] at h
       cases h
+
+/-! ### interface names are labels: validation counts interfaces by identity -/
+
+theorem resolveOne_rename (f : String → String) (s : Svc) (i : SIface) :
+    resolveOne (s.rename f) (i.rename f) = resolveOne s i := by
+  cases i with
+  | direct n k => rfl
+  | port n ps =>
+    match ps with
+    | none => rfl
+    | some [] => rfl
+    | some [p] => rfl
+    | some (_ :: _ :: _) => rfl
+
+theorem resolve_rename (f : String → String) (s : Svc) (l : List SIface) :
+    resolve (s.rename f) (l.map (SIface.rename f)) = resolve s l := by
+  induction l with
+  | nil => rfl
+  | cons i is ih => simp only [List.map_cons, resolve, resolveOne_rename, ih]
+
+theorem checkReq_rename (c : Cfg) (f : String → String) (s : Svc) (site : Option String) (ps : List String) :
+    checkReq c (s.rename f) site ps = checkReq c s site ps := by
+  induction ps with
+  | nil => rfl
+  | cons p ps ih =>
+    simp only [checkReq, ih]
+    rfl
+
+theorem checkForb_rename (c : Cfg) (f : String → String) (s : Svc) (site : Option String) (ps : List String) :
+    checkForb c (s.rename f) site ps = checkForb c s site ps := by
+  induction ps with
+  | nil => rfl
+  | cons p ps ih =>
+    simp only [checkForb, ih]
+    rfl
+
+theorem validateConstraints_rename (c : Cfg) (exp : Bool) (f : String → String) (row : SvcRow) (s : Svc) (n : List NIface) :
+    validateConstraints c exp row (s.rename f) n = validateConstraints c exp row s n := by
+  unfold validateConstraints
+  have h : nstypeConstraints exp row (s.rename f) n = nstypeConstraints exp row s n := rfl
+  rw [h]
+  simp only [checkReq_rename, checkForb_rename]
+
+theorem validateSvc_rename (c : Cfg) (exp : Bool) (f : String → String) (s : Svc) :
+    validateSvc c exp (s.rename f) = ((validateSvc c exp s).1, (validateSvc c exp s).2.rename f) := by
+  unfold validateSvc
+  show (match c.svc.lookup s.ty with | none => _ | some row => _) = _
+  cases c.svc.lookup s.ty with
+  | none => rfl
+  | some row =>
+    simp only
+    have hr : resolve (s.rename f) (s.rename f).ifs = resolve s s.ifs := resolve_rename f s s.ifs
+    rw [hr]
+    cases resolve s s.ifs with
+    | error e => rfl
+    | ok n => simp only [validateConstraints_rename]; rfl
+
+theorem validateSvcs_rename (c : Cfg) (exp : Bool) (f : String → String) (l : List Svc) :
+    validateSvcs c exp (l.map (Svc.rename f)) = ((validateSvcs c exp l).1, (validateSvcs c exp l).2.map (Svc.rename f)) := by
+  induction l with
+  | nil => rfl
+  | cons s rest ih =>
+    simp only [List.map_cons, validateSvcs, validateSvc_rename]
+    match validateSvc c exp s with
+    | (.error e, s') => rfl
+    | (.ok u, s') => simp only [ih, List.map_cons]
+
+theorem instContribution_rename (f : String → String) (s : Svc) (site : String) :
+    instContribution (s.rename f) site = instContribution s site := rfl
+
+theorem instances_rename (c : Cfg) (f : String → String) (l : List Svc) :
+    instances c (l.map (Svc.rename f)) = instances c l := by
+  have h1 : instCrash c (l.map (Svc.rename f)) = instCrash c l := by
+    simp only [instCrash, List.any_map]
+    congr 1; funext s
+    simp [Svc.rename]
+  have hm : mentionedSites (l.map (Svc.rename f)) = mentionedSites l := by
+    simp only [mentionedSites, List.filterMap_map]; rfl
+  have hc : ∀ ty site, instCount (l.map (Svc.rename f)) ty site = instCount l ty site := by
+    intro ty site
+    simp only [instCount, List.filter_map, List.map_map]
+    rfl
+  have h2 : instWithin c (l.map (Svc.rename f)) = instWithin c l := by
+    simp only [instWithin, List.all_map, hm, hc]
+    rfl
+  simp only [instances, h1, h2]
+
+theorem validate_rename (c : Cfg) (f : String → String) (t : Topo) :
+    validate c (t.rename f) = ((validate c t).1, (validate c t).2.rename f) := by
+  unfold validate
+  show (match validateNodes c (visibleNodes c t) with | .error e => _ | .ok _ => _) = _
+  cases validateNodes c (visibleNodes c t) with
+  | error e => rfl
+  | ok u =>
+    simp only
+    show (match validateSvcs c t.exp (t.svcs.map (Svc.rename f)) with | (.error e, svcs') => _ | (.ok _, svcs') => _) = _
+    rw [validateSvcs_rename]
+    match validateSvcs c t.exp t.svcs with
+    | (.error e, svcs') => rfl
+    | (.ok u', svcs') => simp only [instances_rename]; rfl
 
 end FimVerif.Validate
